@@ -56,8 +56,10 @@ class MultitaskKernel(Kernel):
         covar_x = to_linear_operator(self.data_covar_module.forward(x1, x2, **params))
         # task and data covariance may each carry batch dimensions the other one lacks
         batch_shape = torch.broadcast_shapes(covar_x.batch_shape, covar_i.batch_shape)
-        covar_x = covar_x.expand(*batch_shape, *covar_x.matrix_shape)
-        covar_i = covar_i.expand(*batch_shape, *covar_i.matrix_shape)
+        if covar_x.batch_shape != batch_shape:
+            covar_x = covar_x.expand(*batch_shape, *covar_x.matrix_shape)
+        if covar_i.batch_shape != batch_shape:
+            covar_i = covar_i.expand(*batch_shape, *covar_i.matrix_shape)
         res = KroneckerProductLinearOperator(covar_x, covar_i)
         return res.diagonal(dim1=-1, dim2=-2) if diag else res
 
